@@ -61,7 +61,7 @@ Definition fmt_sig (fname : string) (anon_lifetime : bool) : toks :=
    P "->"] ++ rpath_toks (RCore ["fmt"; "Result"]).
 Definition debug_map_builder_toks : toks :=
   allow_ncct_attr ++
-  [I "struct"; I "Educe__RawString"; G Paren [P "&"; TLife "static"; I "str"]; P ";"] ++
+  [I "struct"; I "Educe__RawString"; G Paren [P "&"; TLife "static"; P "::"; I "core"; P "::"; I "primitive"; P "::"; I "str"]; P ";"] ++
   [I "impl"] ++ rpath_toks (RCore ["fmt"; "Debug"]) ++ [I "for"; I "Educe__RawString";
    G Brace (dbg_inline_attr ++ [I "fn"; I "fmt"] ++ fmt_sig "f" true ++
             [G Brace [I "f"; P "."; I "write_str"; G Paren [I "self"; P "."; I "0"]]])] ++
